@@ -936,3 +936,104 @@ def entry_points(prog, uncalled):
         if f.blocks and f.file.endswith('.c') and (f.q in pub or f.q in at):
             out.setdefault(f.q, f)
     return [out[q] for q in sorted(out)]
+
+
+# --------------------------------------------------------------------------
+# claims on a shared record (seeded round 3)
+# --------------------------------------------------------------------------
+
+def record_path(x, rec, al=None):
+    """field path of an access path below the object of record type `rec` it goes through -- `pool->started_threads`:
+    ('started_threads',), `pool->threads.started`: ('threads', 'started'), `(&pool->ev)->owner`: ('ev', 'owner') --
+    or None.  Pointers to a part of the object that are held in alias locals (`int *n = &pool->started; (*n)--`) or
+    left by the substitution of an address argument are followed; a cached value (`_was`) is not an access."""
+    fields = []
+    y = x
+    n = 0
+    while isinstance(y, dict) and n < 64:
+        n += 1
+        k = y.get('k')
+        if y.get('_was') and k != 'addr':
+            return None
+        if k == 'member':
+            if y.get('record') == rec:
+                return (y['field'],) + tuple(reversed(fields))
+            fields.append(y['field'])
+            if y['arrow']:
+                t = _alias_target(y['base'], al)
+                if t is None:
+                    return None
+                y = t
+            else:
+                y = y['base']
+        elif k == 'index':
+            y = strip_load(y['base'])
+        elif k == 'deref':
+            t = _alias_target(y['e'], al)
+            if t is None:
+                return None
+            y = t
+        elif k in ('cast', 'load', 'paren'):
+            y = y['e']
+        else:
+            return None
+    return None
+
+
+def step_of(e, rec, al=None):
+    """(field path, 'up' | 'down') when the store event steps an integer inside an object of record `rec` by a
+    constant: `x++`, `--x`, `x += 2`, `x -= 1`, `x = x - 1`; else None"""
+    if e['ev'] != 'store':
+        return None
+    p = record_path(e['lhs'], rec, al)
+    if p is None:
+        return None
+    op = e.get('op')
+    if op in ('++', '--'):
+        return p, ('up' if op == '++' else 'down')
+    if op in ('+=', '-=') and 'rhs' in e:
+        c = _intval(e['rhs'])
+        if not c:
+            return None
+        return p, ('up' if (c > 0) == (op == '+=') else 'down')
+    if op == '=' and 'rhs' in e:
+        r = strip(e['rhs'])
+        if isinstance(r, dict) and r.get('k') == 'load':
+            r = strip(r['e'])
+        if isinstance(r, dict) and r.get('k') == 'bin' and r.get('op') in ('+', '-'):
+            c = _intval(r['r'])
+            if c and record_path(r['l'], rec, al) == p:
+                return p, ('up' if (c > 0) == (r['op'] == '+') else 'down')
+            c = _intval(r['l'])
+            if c and c > 0 and r['op'] == '+' and record_path(r['r'], rec, al) == p:
+                return p, 'up'
+    return None
+
+
+def loc_order(loc):
+    """sort key of a source location 'file:line:col'"""
+    parts = str(loc or '').rsplit(':', 2)
+    try:
+        return (parts[0], int(parts[1]), int(parts[2]))
+    except (IndexError, ValueError):
+        return (str(loc), 0, 0)
+
+
+def claim_regions(g, eff, L, steps):
+    """May-analysis of what became of this thread's claim on a shared record.
+    steps: {id(event): bool} the events that give the claim up (True: with the lock L held).
+    State: set of ('open', step loc) -- the claim was given up and L was held without interruption since: the region
+    in which it happened is still open, nobody can act on the released claim yet -- and ('closed', step loc, loc of
+    the unlock) -- L was released since (or was not held at the step): the record may be gone.
+    Returns {(b,i): state before the event}."""
+    def tr(e, S):
+        if id(e) in steps:
+            keep = frozenset(x for x in S if x[0] == 'closed')
+            if steps[id(e)]:
+                return keep | {('open', e.get('loc'))}
+            return keep | {('closed', e.get('loc'), None)}
+        if S and any(op == 'unlock' and lid == L for (op, lid) in eff(e)):
+            return frozenset(('closed', x[1], e.get('loc')) if x[0] == 'open' else x for x in S)
+        return S
+    _, ev_in = forward(g, frozenset(), tr, lambda a, b: a | b, edge=_pruned)
+    return ev_in
